@@ -417,10 +417,12 @@ void Ctx::c17() {
 
 std::vector<Violation> check_all(Sim& s, const std::string& only) {
     Ctx c(s, only);
-    c.online();
-    c.c05(); c.c02(); c.c01(); c.c14(); c.c03(); c.c06(); c.c08(); c.c17();
-    c.c04(); c.c10(); c.c11(); c.c12(); c.c13();
-    c.c09(); c.c15(); c.c18(); c.c19();
+    // protocol oracles assume a legitimate broker; in hostile runs only the oracles that stay meaningful are evaluated
+    bool hostile = s.plan.knobs.profile == "hostile";
+    if (!hostile) c.online();
+    c.c05(); c.c02(); c.c01(); c.c14(); c.c17();
+    if (!hostile) { c.c03(); c.c06(); c.c08(); c.c04(); c.c10(); c.c11(); c.c12(); c.c13(); c.c09(); c.c15(); c.c18(); }
+    c.c19();
     if (s.livelock) c.fail("C19", "livelock", "more than 200000 handler steps at one virtual instant");
     return c.out;
 }
